@@ -304,6 +304,14 @@ public:
         }
     }
 
+    // width / signedness of an integral result type (C arithmetic semantics for the folding rules)
+    void addWidth(json::Object& o, QualType T, const char* wk = "rw", const char* sk = "rs") {
+        if (T.isNull() || T->isDependentType()) return;
+        if (!T->isIntegralOrEnumerationType()) return;
+        o[wk] = (int64_t)Ctx.getIntWidth(T);
+        o[sk] = T->isSignedIntegerOrEnumerationType();
+    }
+
     static bool isStdMoveLike(const FunctionDecl* F) {
         if (!F || !F->isInStdNamespace()) return false;
         auto* II = F->getIdentifier();
@@ -612,6 +620,8 @@ public:
             o["op"] = E->getOpcodeStr().str();
             o["l"] = expr(E->getLHS());
             o["r"] = expr(E->getRHS());
+            addWidth(o, E->getComputationResultType());
+            addWidth(o, E->getType(), "lw", "ls");
             return std::move(o);
         }
         if (auto* E = dyn_cast<BinaryOperator>(S)) {
@@ -619,7 +629,8 @@ public:
             o["op"] = E->getOpcodeStr().str();
             o["l"] = expr(E->getLHS());
             o["r"] = expr(E->getRHS());
-            if (!E->isAssignmentOp()) addConst(o, E);
+            if (!E->isAssignmentOp()) { addConst(o, E); addWidth(o, E->getType()); }
+            else addWidth(o, E->getType(), "lw", "ls");
             return std::move(o);
         }
         if (auto* E = dyn_cast<UnaryOperator>(S)) {
@@ -630,6 +641,7 @@ public:
             o["op"] = op;
             o["e"] = expr(E->getSubExpr());
             addConst(o, E);
+            addWidth(o, E->getType());
             return std::move(o);
         }
         if (auto* E = dyn_cast<ArraySubscriptExpr>(S)) {
